@@ -298,6 +298,20 @@ def run(rep, tier):
         else:
             rep.bad("C07.R6", f, f.loc, "agent-%s-filtered" % nm, "default_agent::%s can return without waking the target (path %s): a resume that arrives before the "
                     "target has parked itself is dropped - the waiter's queue entry is already consumed, nothing will ever wake it" % (nm, byp or byp2))
+        # the flag is a boolean, not a counter: a wake-up that sets running_ = true while the target has not yet parked (running_ still true) is
+        # overwritten by the target's own running_ = false - resume()/abort() therefore first wait until the target announced running_ == false
+        lams0 = [l for l in DA.fns if l.parent == f.id]
+        pred_ok = any(e.get("k") == "return" and T(strip(e.get("e"))) in ("!this->running_", "this->running_ == false") for l in lams0 for _, _, e in l.all_events())
+        waitc = lambda e: e.get("k") == "call" and callee_short(e) in ("wait", "wait_for", "wait_until") and "resume_cv_" in P(e.get("recv"))
+        sets = [(b, i) for b, i, e in f.all_events() if setrun(e)]
+        ffa = FactFlow(f)
+        guarded_by_fact = all(("this->running_", False) in (ffa.before.get(p_) or frozenset()) for p_ in sets)
+        if sets and ((pred_ok and all(precedes_on_all_paths(f, waitc, p_) for p_ in sets)) or guarded_by_fact):
+            rep.ok("C07.R6", f, "default_agent::%s sets running_ only after the target announced that it parked (running_ == false)" % nm)
+        elif sets:
+            rep.bad("C07.R6", f, loc_of(f.blocks[sets[0][0]].events[sets[0][1]]), "agent-%s-early" % nm, "default_agent::%s sets running_ = true without first waiting for the target to "
+                    "announce running_ == false: a wake-up that arrives between the waiter's release of the internal lock and its suspend() is overwritten by the waiter's own "
+                    "running_ = false - it then sleeps for ever although it was notified (the queue entry is already consumed)" % nm)
         lams = [l for l in DA.fns if l.parent == f.id]
         waits_for_not_running[nm] = any(e.get("k") == "return" and T(strip(e.get("e"))) in ("!this->running_", "this->running_ == false") for l in lams for _, _, e in l.all_events())
     blocking = lambda e: e.get("k") == "call" and (callee_short(e) in ("wait", "wait_for", "wait_until") and "_cv_" in P(e.get("recv")) or
